@@ -6,6 +6,7 @@ require github.com/diiyw/nodis v0.0.0
 
 require (
 	github.com/DataDog/zstd v1.4.5 // indirect
+	github.com/anishathalye/porcupine v1.3.0
 	github.com/beorn7/perks v1.0.1 // indirect
 	github.com/cespare/xxhash/v2 v2.2.0 // indirect
 	github.com/cockroachdb/errors v1.11.3 // indirect
